@@ -811,7 +811,56 @@ def _compile_mesh_loops(tree):
               "/-- `order_verts = [None]*len(imap)` and the loop; the result replaces the vertex list -/\n"
               "def orderLoop (imap : List (Nat × Nat)) (verts : List Nat) : List (Option Nat) :=\n"
               "  (List.range verts.length).foldl (orderStep imap verts) (List.replicate imap.length none)\n")
-    return corner + "\n" + union + "\n" + imap + "\n" + stages
+    # ---- round 6: duplicate_vertices / ref_vertex bookkeeping ------------------------------------------------------
+    dupname = None
+    for st in body:
+        if isinstance(st, ast.Assign) and isinstance(st.targets[0], ast.Name) and isinstance(st.value, ast.Call) and getattr(st.value.func, "id", None) == "dict" \
+                and len(st.value.args) == 1 and isinstance(st.value.args[0], (ast.ListComp, ast.GeneratorExp)):
+            c = st.value.args[0]
+            if isinstance(c.elt, ast.Tuple) and len(c.elt.elts) == 2 and isinstance(c.elt.elts[1], ast.Call) and getattr(c.elt.elts[1].func, "id", None) == "set" \
+                    and not c.elt.elts[1].args and _path(c.generators[0].iter) == "self.input_mesh.id_vertices":
+                dupname = st.targets[0].id
+    if dupname is None: raise TranslateError("_build_mesh_with_cuts: `duplicate_vertices = dict([(v, set()) for v in id_vertices])` not found")
+    dl = [lp for lp in loops if isinstance(lp.iter, ast.Name) and lp.iter.id == dupname and isinstance(lp.target, ast.Name)]
+    if len(dl) != 2: raise TranslateError(f"_build_mesh_with_cuts: expected two loops over {dupname} (root renumbering, ref_vertex), found {len(dl)}")
+    d1, d2 = dl
+    if not (body.index(ml) < body.index(d1) < body.index(d2)): raise TranslateError("_build_mesh_with_cuts: order of the bookkeeping loops")
+    b1 = _strip(d1.body)
+    ok = len(b1) == 1 and isinstance(b1[0], ast.Assign) and isinstance(b1[0].targets[0], ast.Subscript) and isinstance(b1[0].targets[0].value, ast.Name) \
+        and b1[0].targets[0].value.id == dupname and isinstance(b1[0].targets[0].slice, ast.Name) and b1[0].targets[0].slice.id == d1.target.id \
+        and isinstance(b1[0].value, ast.SetComp) and len(b1[0].value.generators) == 1 and not b1[0].value.generators[0].ifs
+    if ok:
+        sc = b1[0].value; g = sc.generators[0]
+        ok = isinstance(g.target, ast.Name) and isinstance(g.iter, ast.Subscript) and isinstance(g.iter.value, ast.Name) and g.iter.value.id == dupname \
+            and isinstance(g.iter.slice, ast.Name) and g.iter.slice.id == d1.target.id \
+            and isinstance(sc.elt, ast.Subscript) and isinstance(sc.elt.value, ast.Name) and sc.elt.value.id == dname and isinstance(sc.elt.slice, ast.Call) \
+            and isinstance(sc.elt.slice.func, ast.Attribute) and sc.elt.slice.func.attr == "find" and [getattr(a, "id", None) for a in sc.elt.slice.args] == [g.target.id]
+    if not ok: raise TranslateError("_build_mesh_with_cuts: the first bookkeeping loop is not `dup[v] = {imap[uf.find(u)] for u in dup[v]}`")
+    i2 = body.index(d2)
+    rinit = body[i2 - 1]
+    ok = isinstance(rinit, ast.Assign) and _path(rinit.targets[0]) == "self.ref_vertex" and ((isinstance(rinit.value, ast.Call) and getattr(rinit.value.func, "id", None) == "dict"
+         and not rinit.value.args) or (isinstance(rinit.value, ast.Dict) and not rinit.value.keys))
+    if not ok: raise TranslateError("_build_mesh_with_cuts: `self.ref_vertex = dict()` not found right before its loop")
+    b2 = _strip(d2.body)
+    ok = len(b2) == 1 and isinstance(b2[0], ast.For) and isinstance(b2[0].target, ast.Name) and isinstance(b2[0].iter, ast.Subscript) \
+        and isinstance(b2[0].iter.value, ast.Name) and b2[0].iter.value.id == dupname and isinstance(b2[0].iter.slice, ast.Name) and b2[0].iter.slice.id == d2.target.id
+    if ok:
+        w = _strip(b2[0].body)
+        ok = len(w) == 1 and isinstance(w[0], ast.Assign) and isinstance(w[0].targets[0], ast.Subscript) and _path(w[0].targets[0].value) == "self.ref_vertex" \
+            and isinstance(w[0].targets[0].slice, ast.Name) and w[0].targets[0].slice.id == b2[0].target.id and isinstance(w[0].value, ast.Name) and w[0].value.id == d2.target.id
+    if not ok: raise TranslateError("_build_mesh_with_cuts: the ref_vertex loop is not `for v in dup: for u in dup[v]: self.ref_vertex[u] = v`")
+    book = ("/-- body of `for v in duplicate_vertices: duplicate_vertices[v] = {imap[uf.find(u)] for u in duplicate_vertices[v]}`\n"
+            "(`dup x1` = the corners added for vertex `x1` by the corner numbering loop; `none` = ValueError / KeyError) -/\n"
+            "def dupStep (imap : List (Nat × Nat)) (dup : Nat → List Nat) (acc : Option (UF.State × List (Nat × List Nat))) (x1 : Nat) :\n"
+            "    Option (UF.State × List (Nat × List Nat)) :=\n"
+            "  match acc with\n  | none => none\n  | some (uf, out) =>\n    match findAll uf (dup x1) with\n    | none => none\n    | some (uf, rs) =>\n"
+            "      match mapFace imap rs with\n      | none => none\n      | some ks => some (uf, out ++ [(x1, ks)])\n\n"
+            "def dupLoop (uf : UF.State) (imap : List (Nat × Nat)) (dup : Nat → List Nat) (nV : Nat) : Option (UF.State × List (Nat × List Nat)) :=\n"
+            "  (idRange nV).foldl (dupStep imap dup) (some (uf, []))\n\n"
+            "/-- `self.ref_vertex = dict(); for v in duplicate_vertices: for u in duplicate_vertices[v]: self.ref_vertex[u] = v`: the writes `(key, value)` in order -/\n"
+            "def refLoop (dup2 : List (Nat × List Nat)) : List (Nat × Nat) :=\n"
+            "  dup2.foldl (fun ws p => p.2.foldl (fun ws x2 => ws ++ [(x2, p.1)]) ws) []\n")
+    return corner + "\n" + union + "\n" + imap + "\n" + stages + "\n" + book
 
 
 # ------------------------------------------------------------------------------------------------------------------
@@ -1077,7 +1126,7 @@ def sites():
                      ("cutting.py: SingularityCutter._run_no_features", lambda: _compile_run_variant(tree, "_run_no_features", "runNoFeatures") and "ok"),
                      ("cutting.py: SingularityCutter._run_with_features", lambda: _compile_run_variant(tree, "_run_with_features", "runWithFeatures") and "ok"),
                      ("cutting.py: SingularityCutter.run", lambda: _compile_run(tree) and "ok"),
-                     ("cutting.py: SingularityCutter._build_mesh_with_cuts (corner numbering, union loop, find loop, imap loop, renumbering loop, order_verts)", lambda: _compile_mesh_loops(tree) and "ok")):
+                     ("cutting.py: SingularityCutter._build_mesh_with_cuts (corner numbering, union loop, find loop, imap loop, renumbering loop, order_verts, duplicate_vertices / ref_vertex)", lambda: _compile_mesh_loops(tree) and "ok")):
         r = T.site(name, fn)
         ok = ok and r["ok"]
         recs.append(r)
